@@ -6,11 +6,21 @@ import vlib
 
 KEYS = ["a", "b", "c", "d"]
 STRS = ["", "a", "b", "cat", "dog", "a b", "xé", "zz"]
-INTS = [0, 1, 2, 3, -1, -2, 5, 10, 7, 100]
+INTS = [0, 1, 2, 3, -1, -2, 5, 10, 7, 100, 9007199254740992]   # in documents: exactly representable in binary64 (JSON reader goes through float64: C06)
+LIT_INTS = INTS + [9007199254740993, 9007199254740991]          # in expression literals: compared exactly as int64
 
 
 # ---------------------------------------------------------------- documents
+def gen_deep_seq(rng, depth=0):
+    """nested sequences several levels deep (flatten / index arithmetic territory)"""
+    if depth >= 4 or (depth > 0 and rng.random() < 0.3):
+        return rng.choice(INTS[:6])
+    return [gen_deep_seq(rng, depth + 1) for _ in range(rng.choice([1, 2, 2, 3]))]
+
+
 def gen_doc(rng, depth=0, maxdepth=3):
+    if depth == 0 and rng.random() < 0.06:
+        return {"a": gen_deep_seq(rng), "b": rng.choice(INTS)} if rng.random() < 0.6 else gen_deep_seq(rng)
     r = rng.random()
     if depth >= maxdepth or r < 0.35:
         k = rng.random()
@@ -338,7 +348,7 @@ class Gen:
         rng = self.rng
         r = rng.random()
         if r < 0.35:
-            return lit(rng.choice(INTS + STRS[1:5] + [None, True, False]))
+            return lit(rng.choice(LIT_INTS + STRS[1:5] + [None, True, False]))
         if r < 0.75 or d <= 0:
             return self.path(d)
         if vs and r < 0.85:
@@ -381,7 +391,11 @@ class Gen:
             return ("as", self.scalar(d - 1, vs), x, self.expr(d - 1, vs + [x]))
         if r < 0.94:
             x = rng.choice(["i", "j"])
-            return ("reduce", self.path(d), x, lit(rng.choice([0, "", None])), ("add", ("self",), ("var", x)))
+            body = rng.choice([("add", ("self",), ("var", x)), ("add", ("self",), ("var", x)),
+                               ("add", ("self",), ("alt", ("pipe", ("var", x), ("getkey", rng.choice(KEYS))), lit(1))),
+                               ("add", ("self",), ("pipe", ("var", x), ("length",))),
+                               ("collect", ("union", ("self",), ("pipe", ("var", x), ("index", ("self",), lit(rng.choice([0, 2]))))))])
+            return ("reduce", self.path(d), x, lit(rng.choice([0, "", None])), body)
         if r < 0.97:
             return ("pipe", sub(), ("pipe", ("to_entries",), ("from_entries",)))
         return ("index", sub(), lit(rng.choice([0, 1, -1])) if rng.random() < 0.7 else None)
@@ -397,8 +411,18 @@ class Gen:
             return ("collect", ("union", lit(rng.choice(INTS)), lit(rng.choice(STRS[1:4]))))
         if r < 0.72:
             return ("collect", None)
-        if r < 0.9:
+        if r < 0.85:
             return path_expr(self.simple_path(allow_new=False))
+        if r < 0.93:
+            # reads of missing keys / indices at or beyond the end (must not change the document)
+            p = self.simple_path(allow_new=False)
+            try:
+                tgt = _get(self.doc, p)
+            except Exception:
+                tgt = None
+            if isinstance(tgt, list) and rng.random() < 0.6:
+                return path_expr(p + (len(tgt),))          # exactly one past the end
+            return path_expr(p + (rng.choice(KEYS + [0, 1, 2, 3, 4]),))
         return ("add", path_expr(self.simple_path(allow_new=False)), lit(rng.choice([1, 2, "x"])))
 
     def lhs(self):
